@@ -14,6 +14,8 @@ H=[{"name":"H_witness","tiers":Q,"expect":"violation","bounds":"vacuity witness"
  {"name":"H_content","tiers":T,"scale":"b4","bounds":"B=4: signed 0..2B+1, actual 0..signed+B+1","max_seconds":900,"param_sets":[p for p in grid(9,5) if p["ns"]>5 or p["na"]>p["ns"]+2]},
  {"name":"H_content","tiers":T,"scale":"b2","bounds":"B=2: signed 6..4B+1 (more than MaxWoundSize), actual 0..signed+B+1","max_seconds":900,"param_sets":[p for p in grid(9,3) if p["ns"]>5]},
 ]
+H.append({"name":"H_content_real","tiers":["quick","thorough"],"max_steps":2000000000,"bounds":"REGIME R (no constant scaled): signed file of 2 blocks + 100 bytes, concrete; one symbolic damaged byte at the start of block 0, 1 or 2; the same one byte short / one byte long",
+  "param_sets":[{"nb":2,"blk":b,"delta":0} for b in (0,1,2)]+[{"nb":2,"blk":1,"delta":d} for d in (-1,1)]})
 json.dump({"property":"C05","package":"c05","scale":scale,"harnesses":H,
  "stubs":["os -> in-memory file system model","crypto/md5 -> injective model","goroutines run under the deterministic run-until-block schedule (schedules are C16's subject)","protobuf/wire -> tag-faithful codec model (wounds file)"],
  "outside":["block size 64 KiB and MaxWoundSize 4 MiB (declared values scaled; uses are the real code)","several damaged files at once beyond file+dir+symlink","strong-hash collisions"]},open("config.json","w"),indent=1)
